@@ -641,7 +641,9 @@ pub fn c19_case(data: &[u8]) -> c19::Case {
         s
     });
     let tail = d.vec(1, 64, |d| d.u8());
-    c19::Case { send: sender::SendCase { reuse, sends }, tail }
+    let slots = if d.pick(3) == 0 { d.range(1, 3) as u8 } else { 0 };
+    let merge = if d.bool() { d.vec(1, 30, |d| d.range(0, 2) as u8) } else { vec![] };
+    c19::Case { send: sender::SendCase { reuse, sends }, tail, slots, merge }
 }
 
 pub fn c20_case(data: &[u8]) -> c20::Case {
